@@ -343,12 +343,20 @@ def _json(ctx: Ctx, j: Judge, b: go.Built, obj: Any, cv: bool) -> None:
         return
     ins = obj.inputs if b.name == "Psbt" else [obj] if b.name == "PsbtIn" else []
     cls = "taproot-derivs" if any(i.taproot_hd_key_paths for i in ins) else "valid"
-    ok, text = j.call(f"{b.name}.to_dict/{cls}", lambda: json.dumps(codec.to_dict(obj, cv)))
-    if not ok:
-        ctx.probe("to_dict-refused:" + b.name)  # e.g. the difficulty of a header whose target is zero
-        return
-    site = f"{b.name}.from_dict/{cls}"
-    ok, back = j.call(site, lambda: codec.from_dict(json.loads(text), cv))
+    import decimal  # noqa: PLC0415
+
+    # the JSON form holds amounts in BTC: the caller's ambient decimal context is a configuration it must not depend on
+    prec = ctx.ch.pick([28, 28, 28, 1, 3, 6, 8, 9, 12], "json.decimal-prec")
+    if prec != 28:
+        ctx.fault("decimal-context", f"prec={prec}")
+    with decimal.localcontext() as ambient:
+        ambient.prec = prec
+        ok, text = j.call(f"{b.name}.to_dict/{cls}", lambda: json.dumps(codec.to_dict(obj, cv)))
+        if not ok:
+            ctx.probe("to_dict-refused:" + b.name)  # e.g. the difficulty of a header whose target is zero
+            return
+        site = f"{b.name}.from_dict/{cls}"
+        ok, back = j.call(site, lambda: codec.from_dict(json.loads(text), cv))
     j.check(P5, "json-round-trip", lambda: ok and back == obj, lambda: f"from_dict(json(to_dict(x))) {'raised ' + repr(back) if not ok else '!= x'} for x = {b.raw.hex()[:300]}", site)
     if b.name in ("TxOut", "Tx") and ctx.ch.draw(2, "json.network?"):
         # the same output on another network: nothing on the wire says which, the JSON form does
